@@ -370,7 +370,7 @@ func init() {
 				{Backing: "store", MinMergePct: 100, Concern: 1, CachePersisted: true, MergeOp: true},
 				{Backing: "store", MinMergePct: 100, Concern: 0, MergeOp: true},
 			},
-			Steps: []string{"M", "Pb", "Pe", "S+", "CS+", "I+", "IX", "SS+", "H-", "R"},
+			Steps: []string{"M", "MA", "Pb", "Pe", "S+", "CS+", "I+", "IX", "SS+", "H-", "R"},
 			// two persisted rounds leaving at least two live keys in the store, plus one batch still in memory
 			// ... and one completed round followed by a round that is still in flight (the persister parked inside it)
 			Roots: [][]string{{"B0", "M", "Pb", "Pe", "B2", "M", "Pb", "Pe", "B0"}, {"B2", "M", "Pb", "Pe", "B1"}, {"B0", "M", "Pb", "Pe", "B1", "M", "Pb"}},
